@@ -168,6 +168,9 @@ func runC05(res *lp.Result) {
 					if rf, err := cs.codec.ConvertToRawFrame(orig.DeepCopy()); err != nil {
 						viol("ConvertToRawFrame fails on a valid frame: "+err.Error(), id, "", "")
 					} else {
+						if int(rf.Header.BodyLength) != len(rf.Body) {
+							viol(fmt.Sprintf("ConvertToRawFrame: the header declares %d body bytes, the raw body has %d", rf.Header.BodyLength, len(rf.Body)), id, "", "")
+						}
 						var rb bytes.Buffer
 						if err := cs.codec.EncodeRawFrame(rf, &rb); err != nil {
 							viol("EncodeRawFrame fails: "+err.Error(), id, "", "")
@@ -213,6 +216,68 @@ func runC05(res *lp.Result) {
 						}
 					}
 					ask("frame hdr "+hx(all), fmt.Sprintf("ok %d %s", hl, show.Header(full.Header)), id)
+					// 3b. the same paths over other kinds of io.Reader (a *bytes.Buffer, a non-seekable source that delivers a few
+					// bytes per Read) holding TWO copies of the frame: each path must consume exactly the first frame and give the
+					// same result as over a *bytes.Reader
+					two := append(append(append([]byte{}, enc...), enc...), trailer...)
+					for _, rk := range []string{"bytes.Buffer", "chunked"} {
+						for _, path := range []string{"frame", "raw", "body", "rawbody", "discard"} {
+							var src io.Reader
+							var remaining func() int
+							if rk == "bytes.Buffer" {
+								bb := bytes.NewBuffer(append([]byte{}, two...))
+								src, remaining = bb, bb.Len
+							} else {
+								br := bytes.NewReader(two)
+								src, remaining = &chunkedReader{r: br, n: 1 + rng.Intn(16)}, br.Len
+							}
+							what := ""
+							switch path {
+							case "frame":
+								if d, err := cs.codec.DecodeFrame(src); err != nil {
+									what = "DecodeFrame fails: " + firstWords(err.Error())
+								} else if got := show.Frame(d); got != want {
+									what = "DecodeFrame gives a different frame"
+								}
+							case "raw":
+								if r2, err := cs.codec.DecodeRawFrame(src); err != nil {
+									what = "DecodeRawFrame fails: " + firstWords(err.Error())
+								} else if raw != nil && !bytes.Equal(r2.Body, raw.Body) {
+									what = "DecodeRawFrame gives a different body"
+								}
+							default:
+								h, err := cs.codec.DecodeHeader(src)
+								if err != nil {
+									what = "DecodeHeader fails: " + firstWords(err.Error())
+									break
+								}
+								switch path {
+								case "body":
+									if b, err := cs.codec.DecodeBody(h, src); err != nil {
+										what = "DecodeBody fails: " + firstWords(err.Error())
+									} else if got := show.Frame(&frame.Frame{Header: h, Body: b}); got != want {
+										what = "DecodeHeader+DecodeBody gives a different frame"
+									}
+								case "rawbody":
+									if b, err := cs.codec.DecodeRawBody(h, src); err != nil {
+										what = "DecodeRawBody fails: " + firstWords(err.Error())
+									} else if raw != nil && !bytes.Equal(b, raw.Body) {
+										what = "DecodeRawBody gives a different body"
+									}
+								case "discard":
+									if err := cs.codec.DiscardBody(h, src); err != nil {
+										what = "DiscardBody fails: " + firstWords(err.Error())
+									}
+								}
+							}
+							if what == "" && remaining() != len(enc)+len(trailer) {
+								what = fmt.Sprintf("consumed %d bytes of a %d-byte frame", len(two)-remaining(), len(enc))
+							}
+							if what != "" {
+								viol("partial operation over a "+rk+" source ("+path+"): "+what, id+" bytes="+hx(enc), "", "")
+							}
+						}
+					}
 					// 4. header + body encoders: EncodeBody, then EncodeHeader with the body length set, is a frame
 					{
 						o2 := orig.DeepCopy()
@@ -327,4 +392,17 @@ func firstWords(s string) string {
 		w = w[:6]
 	}
 	return strings.Join(w, " ")
+}
+
+// chunkedReader delivers at most n bytes per Read and is neither seekable nor a *bytes.Buffer
+type chunkedReader struct {
+	r io.Reader
+	n int
+}
+
+func (c *chunkedReader) Read(p []byte) (int, error) {
+	if len(p) > c.n {
+		p = p[:c.n]
+	}
+	return c.r.Read(p)
 }
